@@ -163,6 +163,12 @@ def toWriteRaw (i : Ids) : List Name :=
 
 def hasLoop (c : Cfg) (i : Ids) : Bool := c.enableLoop && decide (loopName ∈ toWriteRaw i)
 
+/-- is a `% for` control line rewritten into `loop = __M_loop._enter(…)` / `for … in loop:` (`visitControlLine` +
+`mangle_mako_loop`): only when the line or the nodes under it mention `loop`, and – regenerated fact – only while the
+loop context is enabled -/
+def forRewritten (c : Cfg) (mentionsLoop : Bool) : Bool :=
+  (if Generated.Names.forRewriteOnlyWhenEnabled then c.enableLoop else true) && mentionsLoop
+
 /-- the set `to_write` as a list without duplicates; the code iterates `sorted(to_write)` (`emitOrder`; before the
 hash-seed repair: the set's hash order – `declares_exact` is stated for every permutation of this list) -/
 def toWrite (c : Cfg) (i : Ids) (limit : Option (List Name)) : List Name :=
@@ -370,6 +376,22 @@ def Impl.resolveFrom (c : Cfg) : List Frame → Nat → Name → Res
 /-- how the generated code resolves a read of `x` in the innermost function of `chain` -/
 def Impl.resolve (c : Cfg) (chain : List Frame) (x : Name) : Res :=
   if x = contextName then .ctxObj else Impl.resolveFrom c chain 0 x
+
+/-- tags of the leaves (expressions, control lines, include tags) emitted into the function itself -/
+def ownLeafTags : Body → List Nat
+  | .nil => []
+  | .leaf t _ _ r => t :: ownLeafTags r
+  | .text _ _ r | .code _ _ _ r | .page _ _ _ r | .defn _ _ _ _ _ r | .block _ _ _ _ _ _ r | .call _ _ _ _ _ r => ownLeafTags r
+
+/-- `__M_loop` is a local of the functions that declare `loop = __M_loop = runtime.LoopStack()`; closures nested in
+them see it -/
+def mLoopAvailable (c : Cfg) (chain : List Frame) : Bool := chain.any (fun f => !f.ccall && hasLoop c f.ids)
+
+/-- `% for` lines of the function that are rewritten to `loop = __M_loop._enter(…)` although no `__M_loop` is in scope
+(`loopFors`: tags of the `% for` lines whose line or suite mentions `loop` – `codegen.LoopVariable`, an input like the
+identifier sets): executing such a line raises Python's `NameError: name '__M_loop' is not defined` -/
+def forErrors (c : Cfg) (loopFors : List Nat) (chain : List Frame) (body : Body) : List Nat :=
+  (ownLeafTags body).filter (fun t => decide (t ∈ loopFors) && forRewritten c true && !mLoopAvailable c chain)
 
 /-! ## Specification -/
 
